@@ -105,26 +105,7 @@ theorem C04_file_eof (rows cols ty : Nat) (hty : ty < 2^64) (kvs : KV) (hs : Sor
   refine ⟨s, bytes, e1, e2, fun hsz => ?_⟩
   obtain ⟨m, hm, hall⟩ := h hsz
   refine ⟨m, hm, fun {σ} A hA min max => ?_⟩
-  have hCan' : ∀ x, (eofLift A).canMatch x = false →
-      ∀ w, (eofLift A).isMatch ((eofLift A).run x w) = false := by
-    intro x hx w
-    obtain ⟨x, b⟩ := x
-    rw [eofLift_run]
-    have := hA.canSound x hx w
-    simp only [eofLift]
-    split
-    · exact this.2
-    · exact this.1
-  obtain ⟨s0', hnew, M, hM⟩ := hall (eofLift A) (fun _ => rfl) hCan' min max
-  refine ⟨projS s0', by rw [streamNew_proj, hnew]; rfl, M, fun fuel hf => ?_⟩
-  have h := streamCollect_proj (byteAccess 3 (Src.ofList bytes)) A m.rootAddr fuel s0' []
-  simp only [List.map_nil] at h
-  rw [h, hM fuel hf]
-  simp only [Option.map_some, List.map_map, eofLift_accepts]
-  congr 1
-  apply List.map_congr_left
-  intro kv _
-  simp [prItem, eofLift_run_start]
+  exact eof_transport (hall (eofLift A) (fun _ => rfl) (eofLift_canSound A hA.canSound) min max)
 
 /-- non-vacuity: an automaton with a hook AND a pruning state meets `ContractEof`, and the hook
 changes what is accepted -/
